@@ -37,8 +37,26 @@ def main():
         os._exit(int(code or 0))
     except SystemExit:
         raise
-    except BaseException:
+    except BaseException as e:
         traceback.print_exc()
+        # An exception that escapes a check is a harness error (exit 2) unless it was raised INSIDE the code under test: the
+        # innermost frames of the traceback lie in the repository and the check called it on an input it considers legal.  That is
+        # reported as a violation with the traceback as the replay (every check passes on the unchanged tree, so this path is only
+        # reached on changed code).
+        tb = traceback.extract_tb(e.__traceback__)
+        repo = str(common.REPO.resolve())
+        inner_in_repo = bool(tb) and os.path.realpath(tb[-1].filename).startswith(repo + os.sep)
+        if inner_in_repo and 'chk' in locals() and not isinstance(e, (KeyboardInterrupt, MemoryError)):
+            try:
+                where = '%s:%d in %s' % (os.path.relpath(os.path.realpath(tb[-1].filename), repo), tb[-1].lineno, tb[-1].name)
+                chk.fail('%s:real-code-raised:%s' % (a.pid, type(e).__name__),
+                         'the code under test raised %s (%s) at %s on an input the check treats as legal' % (type(e).__name__, str(e)[:160], where),
+                         {'traceback': traceback.format_exception(type(e), e, e.__traceback__)[-12:]})
+                code = chk.finish()
+                sys.stdout.flush()
+                os._exit(int(code or 1))
+            except BaseException:
+                traceback.print_exc()
         print('HARNESS-ERROR property=%s (exit 2, not a violation)' % a.pid)
         sys.stdout.flush()
         os._exit(2)
